@@ -228,7 +228,7 @@ def main():
             "stubs": "libc time/srand/rand/random; in-memory disk behind MEDDLY::input/output; malloc/realloc failure seam (C18 only)",
             "known_findings_reported": known_lines,
         },
-        "assumptions": ["bounded domains (<= 96 states for sets, <= 24 for relations)", "EV* forests are not drawn",
+        "assumptions": ["bounded domains (<= 96 states for sets, <= 24 for relations)", "EV* forests only in the C01/C05/C10 profiles, compared with the library's own tolerance",
                         "configurations listed in known_findings.txt are exercised by their probe plans only"],
         "wall_s": round(wall, 2),
         "violations": len(viol),
